@@ -275,7 +275,11 @@ def run_pipeline(case, acc, m, graph, pl, cfg, tier, ch):
     from rig.routing_table.remove_default_routes import minimise as rde
     from rig.routing_table.ordered_covering import minimise as oc
     machine = m.to_rig(chip_resources={Cores: CAP})
-    vr = {v: ({Cores: n} if n else {}) for v, n in graph["v"].items()}
+    # a device vertex needs no cores: declared with no resources at all or
+    # (configurations with radius 1) with an explicit zero
+    dev_res = {Cores: 0} if cfg["radius"] == 1 else {}
+    vr = {v: ({Cores: n} if n else dict(dev_res))
+          for v, n in graph["v"].items()}
     nets, net_keys = build_problem(graph, cfg["keys"])
     cons = [ReserveResourceConstraint(Cores, slice(0, 1))]
     endpoint_of = {}
